@@ -99,6 +99,8 @@ def one_model(ctx, script, spec, rng, solved):
     except Exception as e:
         ctx.count('instantiation_failed')
         return
+    if not solved:
+        integer_model_round_trip(ctx, Model, spec, script, rng)
     decorate(m, n, rng)
     if solved:
         with warnings.catch_warnings():
@@ -180,6 +182,38 @@ def one_model(ctx, script, spec, rng, solved):
         for nm in data_cols:
             if not np.array_equal(np.asarray(m3[nm]), np.asarray(m[nm]), equal_nan=True):
                 ctx.violation('import-values', f'from_dataframe: {nm} exported as {m[nm].tolist()} but re-imported as {m3[nm].tolist()}', case)
+                return
+
+
+def integer_model_round_trip(ctx, Model, spec, script, rng):
+    """A model whose variables are integers (dtype=int), holding unique values that no float64 represents, exported next
+    to columns of other dtypes: from_dataframe(..., dtype=int) reproduces every one of them exactly."""
+    n = spec.n
+    data_cols = list(Model.NAMES)
+    try:
+        m = Model(spec.make(), dtype=int)
+    except Exception:
+        return
+    big = 2 ** 53 + 1
+    for j, nm in enumerate(data_cols):
+        sign = -1 if j % 2 else 1
+        m.__dict__['_' + nm][:] = [sign * (big + 2 * (j * n + i)) for i in range(n)]
+    m.add_variable('share', 0.25, dtype=float)
+    m.add_variable('flag', True, dtype=bool)
+    for status, iterations, extra in ((False, False, ['share']), (False, True, ['share']), (True, False, ['share']), (False, False, ['share', 'flag']), (False, False, [])):
+        case = {'script': script, 'span_kind': spec.kind, 'n': n, 'op': 'from_dataframe(dtype=int)', 'status': status, 'iterations': iterations, 'extra': extra}
+        ctx.evaluation((script, spec.kind, n, 'int-import', status, iterations, tuple(extra)), nontrivial=True)
+        table = m.to_dataframe(status=status, iterations=iterations)
+        keep = data_cols + extra + [c for c in ('status', 'iterations') if c in table.columns]
+        try:
+            m2 = Model.from_dataframe(table[keep], dtype=int)
+        except Exception as e:
+            ctx.violation('import-raises', f'from_dataframe(dtype=int) on {spec.kind} with columns {keep} raised {type(e).__name__}: {e}', case)
+            return
+        ctx.count('integer_imports_compared')
+        for nm in data_cols:
+            if m2[nm].tolist() != m[nm].tolist() or m2[nm].dtype != m[nm].dtype:
+                ctx.violation('import-values', f'from_dataframe(dtype=int) next to columns {extra} (status={status}, iterations={iterations}): {nm} = {m2[nm].tolist()[:3]} ({m2[nm].dtype}) != {m[nm].tolist()[:3]} ({m[nm].dtype})', case)
                 return
 
 
